@@ -7,6 +7,7 @@ import (
 	"fmt"
 	"regexp"
 	"sort"
+	"strconv"
 	"strings"
 	"time"
 
@@ -570,6 +571,17 @@ func (d *Driver) ImplDump() string {
 	// for equality with what a caller passes in, and which caller-side versions are current / stale is in the model key
 	return ulidRe.ReplaceAllString(s, "v")
 }
+
+// ImplDumpAt is ImplDump with every time instant replaced by what bucket(instant) returns (searches that move the
+// clock bucket remaining life-times, see CanonKeyAt).
+func (d *Driver) ImplDumpAt(bucket func(t time.Time) string) string {
+	return timeRe.ReplaceAllStringFunc(d.ImplDump(), func(m string) string {
+		n, _ := strconv.ParseInt(m[1:], 10, 64)
+		return "T" + bucket(time.Unix(0, n))
+	})
+}
+
+var timeRe = regexp.MustCompile(`T-?[0-9]+`)
 
 var ulidRe = regexp.MustCompile(`[0-9A-HJKMNP-TV-Z]{26}`)
 
